@@ -82,6 +82,7 @@ pub const BASE_PAIRS: &[(usize, &str, &str)] = &[
     (2, "b14-response-shapes", "{ ab { ... on A { k: n o { x: n } l } ... on B { k: n o { x: n } l } } }"),
     (0, "b16-abstract-parent-merging", "{ i { x: a ... on T { x: a } ... on V { x: a } } u { ... on I { y: a } ... on V { y: a } ... on T { y: a } } }"),
     (0, "b17-custom-scalar-literals", "{ cn(s: [null, 1, {k: null}]) c(s: [null]) x: cn(s: {k: [null]}) y: cn(s: A) }"),
+    (2, "b18-leaf-and-composite-under-type-conditions", "{ ab { ... on A { k: n } ... on B { j: o { s } k: n } } }"),
     (2, "b15-response-shapes-fragments", "{ ab { ...FA ...FB } } fragment FA on A { v: ln o { o { s } } } fragment FB on B { v: ln o { o { s } } }"),
 ];
 
